@@ -41,6 +41,9 @@ func init() {
 	registerRule("R49", ruleR49)
 	registerRule("R50", ruleR50)
 	registerRule("R51", ruleR51)
+	registerRule("R52", ruleR52)
+	registerRule("R53", ruleR53)
+	registerRule("R54", ruleR54)
 	registerRule("R39", ruleR39R40)
 	registerRule("R40", func(c *Ctx) { c.run("R39") })
 	registerRule("R37", func(c *Ctx) { c.run("R21") })
@@ -82,7 +85,7 @@ func init() {
 		NotDecided: "That children inside a 4/16-slot node are kept in ascending byte order (insertPosNode4/16: SWAR/SIMD arithmetic) and that the key encodings are monotone (C07's value-level part)."})
 	registerProp(&propSpec{ID: "C03", Level: "other", DesignRef: "§4 C03",
 		Rules:      []string{"R12", "R11", "R13", "R39", "R09", "R01", "R08", "R06", "R27"},
-		Explain:    "Range: R12 the scan and the open-end bound are guarded against an empty tree (nil root, nil maximum); R11 the key depth is carried per stack entry, not per scan; R13 every yield is dominated by both leaf-level bound comparisons with the right argument roles, a key below the lower bound is skipped rather than ending the scan, callers normalise reversed bounds by a swap, the equal-bounds sequence yields only under a successful Search; R09 the scan enumerates children like the other traversals; R01 slicing of the bounds' common prefix is guarded; R08 the bounds get the same key normalisation as stored keys. R39 the scan ends only on an empty stack, a false yield or a key above the upper bound; R27 no captured state is mutated.",
+		Explain:    "Range: R12 the scan and the open-end bound are guarded against an empty tree (nil root, nil maximum); R11 the key depth is carried per stack entry, not per scan; R13 every yield is dominated by both leaf-level bound comparisons with the right argument roles, a key below the lower bound is skipped rather than ending the scan, callers normalise reversed bounds by a swap, the equal-bounds sequence yields only under a successful Search; R09 the scan enumerates children like the other traversals; R01 slicing of the bounds' common prefix is guarded; R08 the bounds get the same key normalisation as stored keys. R39 the scan ends only on an empty stack, a false yield or a key above the upper bound; R27 no captured state is mutated. R54 the pruning idiom of the scan (skip a subtree when longestCommonPrefix(node path, window of the bounds' common prefix) == 0) compares provably non-empty byte strings (linear facts: prefixLen >= 1, depth < len(search)); R11 every child is pushed with the position computed for the children of the popped node.",
 		NotDecided: "That the common-prefix pruning (skip a subtree whose compressed path mismatches the bounds' common prefix) never removes a subtree intersecting the range – a value-level argument about byte positions."})
 	registerProp(&propSpec{ID: "C04", Level: "other", DesignRef: "§4 C04",
 		Rules:      []string{"R13", "R40", "R39", "R11", "R10", "R06", "R09", "R01", "R12", "R27", "R44"},
@@ -110,8 +113,8 @@ func init() {
 		NotDecided: "What the abstract domain cannot express makes an arm UNKNOWN and leaves it to the pattern clauses: shifts other than by W-1, XOR/OR/AND with a constant whose low W-1 bits are neither all clear nor all set, arithmetic that may wrap on a class, calls outside math / encoding/binary / the library. Go's own conversion and math.Float*bits semantics and the IEEE-754 layout are trusted."})
 	registerProp(&propSpec{ID: "C10", Level: "other", DesignRef: "§4 C10", QuickArchs: []string{"amd64", "arm64", "386"},
 		Rules:      []string{"R19", "R09", "R10", "R22", "R20", "R37", "R41", "R43", "R44"},
-		Explain:    "R19 every use of a 4-lane SWAR search result as an index is under result < fill count (the search sees all four lanes, occupied or not), and deleteChild – the one unguarded user – is only called for a byte proven registered by findChild on the same reference; R09 the byte→child lookup of each size class and every inlined copy of it agree; R10 constant-range indexes fit [4]/[16]/[48]/[256]; R22 capacity guards equal the array lengths and shrink thresholds fit the smaller class; R20 each architecture sibling of the 16-lane routines (amd64 asm, arm64 asm, portable Go) makes its result depend on keys, fill count and probe byte, compares unsigned, and stores nothing but the result. R37 a class whose deleteChild leaves holes never takes slot childrenLen; R41 every deleteChild path vacates the slot; R43 every addChild path stores one child and bumps the fan-out once. R47 a single-lane store into the packed node4 key word replaces the lane (the lane is cleared on every path before the byte is OR-ed in): the removal shift leaves the former top lane as it was, so lanes beyond the fill count are not zero.",
-		NotDecided: "The SWAR/SIMD bit arithmetic (2^40 / 2^140 inputs): that insertPosNode4/16 return the sorted position and searchNode4 the first matching lane."})
+		Explain:    "R19 every use of a 4-lane SWAR search result as an index is under result < fill count (the search sees all four lanes, occupied or not), and deleteChild – the one unguarded user – is only called for a byte proven registered by findChild on the same reference; R09 the byte→child lookup of each size class and every inlined copy of it agree; R10 constant-range indexes fit [4]/[16]/[48]/[256]; R22 capacity guards equal the array lengths and shrink thresholds fit the smaller class; R20 each architecture sibling of the 16-lane routines (amd64 asm, arm64 asm, portable Go) makes its result depend on keys, fill count and probe byte, compares unsigned, and stores nothing but the result. R37 a class whose deleteChild leaves holes never takes slot childrenLen; R41 every deleteChild path vacates the slot; R43 every addChild path stores one child and bumps the fan-out once. R47 a single-lane store into the packed node4 key word replaces the lane (the lane is cleared on every path before the byte is OR-ed in): the removal shift leaves the former top lane as it was, so lanes beyond the fill count are not zero. R53 the lane helpers of the packed key word (read a lane, store a lane, open / close a gap) are decided by a lane-wise abstract interpretation (checker/laneinterp.go): the word is four symbolic lanes, the helper is executed for every position it is called with (shifts by whole lanes, lane-aligned masks), and the resulting lanes must be those of the children array after the copy() / element store of the calling block – the top lane may keep its byte or be cleared. R11/R22/R41 clauses: pushed positions, shrink-threshold chain, the shrink test is evaluated after every decrement.",
+		NotDecided: "The SWAR/SIMD *comparison* arithmetic (2^40 / 2^140 inputs): that insertPosNode4/16 return the sorted position and searchNode4 the first matching lane, in Go and in the amd64/arm64 assembly. (The lane-moving helpers are decided by R53.)"})
 	registerProp(&propSpec{ID: "C11", Level: "other", DesignRef: "§4 C11",
 		Rules:      []string{"R06", "R07", "R21", "R22", "R23", "R03", "R04", "R24", "R37", "R41", "R43", "R10"},
 		Explain:    "R06 a reference is only ever read through the layout its tag names (120 casts under tag facts, 48 reference literals pairing pointer type and tag, pool assertions); R07 every kind switch has one arm per inner kind and a panicking default; R21 every grow/shrink copies every header field (prefixLen, childrenLen, prefix) to the replacement before releasing the old node; R22 capacity guards/thresholds are coherent with the array lengths; R23 node fields are written only by the node layer and the Insert split paths; R03/R04 the number of linked leaves moves in step with size on every path; R24 nodes are released only after the slot is relinked. R22 also: prefixLen is as wide as the leaves' key-length fields; R37/R41/R43 slot allocation, vacate-on-delete and fan-out bookkeeping of the node layer; R10 the grow/shrink loops over a byte-indexed table cover all 256 entries. R47 the packed key word registers a child under exactly its byte (lane cleared before the OR). R50 deleteChild of the smallest size class relinks the slot to the remaining child on every path on which the fan-out has dropped to one (a branch point keeps two children; a one-child node that stays linked is never collapsed later). R51 dispatchers hand every call on.",
@@ -145,13 +148,13 @@ func init() {
 	// wrong fan-out, a dereferenced nil) breaks every behavioural property of every tree kind, and
 	// a defect of the traversals every property about what iteration yields. The rules below are
 	// therefore run for, and their obligations attributed to, these properties as well.
-	nodeLayer := []string{"R06", "R07", "R09", "R10", "R19", "R21", "R22", "R37", "R41", "R43", "R44", "R47"}
+	nodeLayer := []string{"R06", "R07", "R09", "R10", "R19", "R21", "R22", "R37", "R41", "R43", "R44", "R47", "R53"}
 	for _, r := range nodeLayer {
 		impliedProps[r] = append(impliedProps[r], "C01", "C02", "C06", "C08", "C09", "C10", "C11")
 	}
 	// a lookup that finds a child that is not registered (a stale lane, a ghost slot) lets a Delete
 	// of an absent key succeed: the no-op half of C15
-	for _, r := range []string{"R09", "R19", "R41", "R47"} {
+	for _, r := range []string{"R09", "R19", "R41", "R47", "R53"} {
 		impliedProps[r] = append(impliedProps[r], "C15")
 	}
 	// a node that is in the pool while a tree still references it (released twice, released
@@ -183,8 +186,11 @@ func init() {
 	impliedProps["R15"] = append(impliedProps["R15"], "C01", "C02")
 	impliedProps["R48"] = append(impliedProps["R48"], "C17")
 	impliedProps["R49"] = append(impliedProps["R49"], "C12", "C14", "C16")
-	impliedProps["R50"] = append(impliedProps["R50"], "C11", "C17", "C05")
+	impliedProps["R50"] = append(impliedProps["R50"], "C11", "C17", "C05", "C12") // a dead node left behind: an emptied tree is not like a new one
+	impliedProps["R11"] = append(impliedProps["R11"], "C09", "C08", "C02", "C04") // the worklists are shared by every tree kind
 	impliedProps["R51"] = append(impliedProps["R51"], "C06", "C01", "C11", "C15")
+	impliedProps["R52"] = append(impliedProps["R52"], "C04", "C08")
+	impliedProps["R54"] = append(impliedProps["R54"], "C03", "C09")
 	// a fan-out counter that no longer follows the removals keeps the shrink thresholds from firing
 	impliedProps["R41"] = append(impliedProps["R41"], "C17")
 	impliedProps["R29"] = append(impliedProps["R29"], "C08")
